@@ -107,6 +107,12 @@ type Job struct {
 	ShrinkS  float64    `json:"shrink_s"`
 	Scenario string     `json:"scenario,omitempty"`
 	PerRun   bool       `json:"per_run,omitempty"`
+	Avoid    []AvoidPat `json:"avoid,omitempty"`
+}
+
+type AvoidPat struct {
+	Check    string   `json:"check"`
+	Contains []string `json:"contains"`
 }
 
 type ReplayFile struct {
@@ -392,7 +398,7 @@ func doCheck(scratch, prop, tier string) int {
 	bin := build(scratch)
 	buildS := time.Since(start).Seconds()
 	// replay files of earlier runs of this check are stale
-	if old, _ := filepath.Glob(filepath.Join(verifDir, "out", "replays", prop+"-*.json")); len(old) > 0 {
+	if old, _ := filepath.Glob(filepath.Join(replayDir(), prop+"-*.json")); len(old) > 0 {
 		for _, f := range old {
 			os.Remove(f)
 		}
@@ -540,7 +546,13 @@ func doCheck(scratch, prop, tier string) int {
 		// shrink
 		final := rr
 		minimised := false
-		lines, err = runWorker(bin, scratch, &Job{Mode: "shrink", Property: prop, Tier: tier, Replay: r, ShrinkS: shrinkS}, time.Duration(shrinkS+120)*time.Second)
+		var avoid []AvoidPat
+		for _, k := range findings {
+			if k.Status == "known" && k.Property == prop {
+				avoid = append(avoid, AvoidPat{Check: k.Check, Contains: k.Contains})
+			}
+		}
+		lines, err = runWorker(bin, scratch, &Job{Mode: "shrink", Property: prop, Tier: tier, Replay: r, ShrinkS: shrinkS, Avoid: avoid}, time.Duration(shrinkS+120)*time.Second)
 		if err == nil {
 			for _, m := range lines {
 				if kindOf(m) == "shrunk" {
@@ -556,7 +568,7 @@ func doCheck(scratch, prop, tier string) int {
 								if kindOf(m2) == "result" {
 									var c RunResult
 									json.Unmarshal(m2["result"], &c)
-									if f2 := c.firstOwned(); f2 != nil && f2.Kind+"|"+f2.Check == fo.Kind+"|"+fo.Check {
+									if f2 := c.firstOwned(); f2 != nil && f2.Kind+"|"+f2.Check == fo.Kind+"|"+fo.Check && matchFinding(findings, prop, f2) == nil {
 										c.Sched = sr.Sched
 										final = &c
 										minimised = true
@@ -569,8 +581,8 @@ func doCheck(scratch, prop, tier string) int {
 			}
 		}
 		ff := final.firstOwned()
-		os.MkdirAll(filepath.Join(verifDir, "out", "replays"), 0755)
-		path := filepath.Join(verifDir, "out", "replays", fmt.Sprintf("%s-%s-%d.json", prop, sanitize(ff.Check), r.Seed))
+		os.MkdirAll(replayDir(), 0755)
+		path := filepath.Join(replayDir(), fmt.Sprintf("%s-%s-%d.json", prop, sanitize(ff.Check), r.Seed))
 		if len(final.Trace) > 400 {
 			final.Trace = final.Trace[len(final.Trace)-400:]
 		}
@@ -735,9 +747,26 @@ func writeEvidence(prop, tier string, seed uint64, meta PropMeta, a *agg, violat
 		"wall_s":     wall,
 		"violations": violations,
 	}
-	os.MkdirAll(filepath.Join(verifDir, "evidence"), 0755)
+	os.MkdirAll(evidenceDir(), 0755)
 	b, _ := json.MarshalIndent(ev, "", " ")
-	os.WriteFile(filepath.Join(verifDir, "evidence", prop+".json"), b, 0644)
+	os.WriteFile(filepath.Join(evidenceDir(), prop+".json"), b, 0644)
+}
+
+// Evidence and replay files of runs against a scratch copy of the
+// repository (VERIF_REPO: seeded changes) are kept apart: /verif/evidence
+// only ever describes runs against /repo itself.
+func evidenceDir() string {
+	if os.Getenv("VERIF_REPO") != "" {
+		return filepath.Join(verifDir, "out", "alt", "evidence")
+	}
+	return filepath.Join(verifDir, "evidence")
+}
+
+func replayDir() string {
+	if os.Getenv("VERIF_REPO") != "" {
+		return filepath.Join(verifDir, "out", "alt", "replays")
+	}
+	return filepath.Join(verifDir, "out", "replays")
 }
 
 // doDeterminism executes the same run indices in several processes under
